@@ -371,6 +371,35 @@ def main(argv=None):
             obligations += o
             infos += i
 
+    # thorough tier: run each unit's replay/search harness on the current tree as a differential check of the executable
+    # form of the contracts against the real crate (guards against a spec that drifted from the code, and exercises the
+    # assumptions the proofs rest on, e.g. TrieBuilder => TrieWf).  Labelled `differential`, never counted as proof.
+    if a.tier == "thorough":
+        done = set()
+        for u in units:
+            rp = cfgs[u].get("replay")
+            if not rp:
+                continue
+            key = (tuple(rp["files"]), rp.get("default_test"))
+            if key in done:
+                continue
+            done.add(key)
+            o = {"id": "%s/differential:%s" % (u, rp.get("default_test")), "unit": u, "engine": "cargo-test", "kind": "differential: seeded search on the real crate (not a proof)", "real_code": True}
+            rep = run_replay(o, cfgs[u], a.repo, work, seed)
+            if rep.get("found"):
+                o["status"] = "failed"
+                i = rep["output"].find("REPLAY-FAIL")
+                o["detail"] = rep["output"][i:i + 1500] if i >= 0 else rep["output"][-1500:]
+                o["failed_kinds"] = ["differential"]
+                o["replay_result"] = rep
+            elif rep.get("ran"):
+                o["status"] = "discharged"
+                m = re.search(r"(verif_replay\w*: \d+ [^\n]*ok)", rep["output"])
+                o["detail"] = m.group(1) if m else ""
+            else:
+                o["status"], o["detail"] = "undecided", "differential harness did not build/run: " + rep.get("output", "")[-300:]
+            obligations.append(o)
+
     # keep only obligations that serve this property (a unit may list per-obligation property filters)
     def serves(o):
         cfg = cfgs[o["unit"]]
@@ -396,7 +425,9 @@ def main(argv=None):
     for o, k in known_hits:
         lines.append("KNOWN-FINDING: property=%s %s (%s)" % (a.prop, k["what"], o["id"]))
     for o in violations:
-        if o["engine"] == "kani":
+        if o.get("replay_result"):
+            rep = o.pop("replay_result")
+        elif o["engine"] == "kani":
             rep = kani_counterexample(o, cfgs[o["unit"]], a.repo, work)
             if not rep.get("found") and cfgs[o["unit"]].get("replay"):
                 rep2 = run_replay(o, cfgs[o["unit"]], a.repo, work, seed)
@@ -440,11 +471,14 @@ def write_evidence(prop, pr, tier, seed, obligations, infos, cfgs, wall, nviol, 
     real = [o for o in obligations if o["kind"] != "must_fail"]
     disch = [o for o in real if o["status"] == "discharged"]
     bounded = [o for o in real if str(o.get("kind", "")).startswith("bounded")]
-    proved = [o for o in real if not str(o.get("kind", "")).startswith("bounded")]
+    differential = [o for o in real if str(o.get("kind", "")).startswith("differential")]
+    proved = [o for o in real if not str(o.get("kind", "")).startswith("bounded") and not str(o.get("kind", "")).startswith("differential")]
     samples = []
     for o in real[:400]:
         s = {"obligation": o["id"], "engine": o["engine"], "kind": o.get("kind"), "status": o["status"]}
-        for k in ("source", "time_ms", "time_s", "checks", "covers", "real_code", "failed_kinds", "stubs"):
+        for k in ("source", "time_ms", "time_s", "checks", "covers", "real_code", "failed_kinds", "stubs", "detail"):
+            if k == "detail" and not str(o.get("kind", "")).startswith("differential"):
+                continue
             if k in o:
                 s[k] = o[k]
         samples.append(s)
@@ -473,7 +507,7 @@ def write_evidence(prop, pr, tier, seed, obligations, infos, cfgs, wall, nviol, 
     for o in real:
         if o.get("time_s"):
             solver_ms += o["time_s"] * 1000.0
-    fns_under_contract = sorted(set(o.get("fn") or o.get("harness") for o in real if o.get("real_code")))
+    fns_under_contract = sorted(set(o.get("fn") or o.get("harness") for o in real if o.get("real_code") and (o.get("fn") or o.get("harness"))))
     ev = {
         "property_id": prop,
         "tier": tier,
@@ -484,10 +518,11 @@ def write_evidence(prop, pr, tier, seed, obligations, infos, cfgs, wall, nviol, 
             "discharged": len(disch),
             "obligations_unbounded_proof": len(proved),
             "obligations_bounded_standin": len(bounded),
+            "obligations_differential_not_proof": len(differential),
             "bounded_standins": [{"obligation": o["id"], "bound": o["kind"]} for o in bounded],
             "must_fail_guards_rejected": len([o for o in obligations if o["status"] == "expected_fail_ok"]),
             "checker_cmd": " ; ".join(cmds) if cmds else "none",
-            "backends": sorted(set(("verus 0.2026.09.13 + z3 4.16" if o["engine"] == "verus" else "kani 0.68 + cbmc 6.11") for o in real)),
+            "backends": sorted(set({"verus": "verus 0.2026.09.13 + z3 4.16", "kani": "kani 0.68 + cbmc 6.11"}.get(o["engine"], "cargo test (differential only)") for o in real)),
             "solver_time_s": round(solver_ms / 1000.0, 2),
             "trusted_base": sorted(set(trusted)) + ["rustc front end; Verus/z3; Kani/CBMC/kissat"],
             "functions_under_contract": fns_under_contract,
